@@ -1,5 +1,301 @@
-import MlModel.Model.Rebatch
+import MlModel.Lemmas.Rebatch
+/-!
+# C19 — re-batching conserves rows, order and column alignment
+
+Model: `MlModel.Rebatch.run target numColumns pad bs` = `list(rebatched_args(iter(bs), target,
+num_columns=numColumns, pad=pad))` plus the error kind if it raised (`Model/Rebatch.lean`).
+Vocabulary (`Lemmas/RebatchDefs.lean`): `colRows b c` rows of column `c` of batch `b`;
+`colConcat bs c` their concatenation over a stream; `nrows b` rows of a batch (first column);
+`totalRows`; `Rect nc r b` = `nc` columns of supported kind with `r` rows each;
+`WF nc bs` = every batch `b` is `Rect nc (nrows b)` (decidable);
+`padding t pad n` = `[]` / `replicate ((t - n % t) % t) p`;
+`online` = what has been yielded when the generator asks for the next input batch.
+
+All theorems: every `target > 0`, every column count `nc ≥ 1`, every finite well-formed stream,
+both ways of giving the column count (`numColumns = nc` explicit, `numColumns = 0` deduced).
+
+`C19_no_error`, `C19_conserve`, `C19_rect`, `C19_sizes`, `C19_count`, `C19_aligned`, `C19_rows`,
+`C19_online`, `C19_identity`, `C19_errors`; `C19_treefn` for the double re-batching of
+`TreeFn._iterate` (model `treeFn`).  Not stated as theorems (covered by the correspondence only):
+the container kind of the emitted columns, and the `TypeError` branch for unsupported containers.
+Known finding F-C19-assign (`Assign` + `batch_size`) is outside `_iterate`: see `Witness/C19.lean`.
+-/
 namespace MlModel.C19
 open MlModel.Rebatch
-theorem C19_placeholder : sliced 2 [1,2,3] = [[1,2],[3]] := by simp [sliced]
+
+variable {α : Type}
+
+/-- A well-formed stream never raises. -/
+theorem C19_no_error {t nc numColumns : Nat} (ht : 0 < t) (hnc : 0 < nc)
+    (hcols : numColumns = nc ∨ numColumns = 0) (pad : Option α) {bs : List (Batch α)}
+    (hwf : WF nc bs) : (run t numColumns pad bs).err = none := by
+  obtain ⟨fin, m, hrun, -⟩ := run_spec ht hnc hcols pad hwf
+  rw [hrun]
+
+/-- Conservation and order, column by column: the emitted rows are exactly the input rows, in
+order, followed by the padding (which therefore only ever extends the end of the last batch). -/
+theorem C19_conserve {t nc numColumns : Nat} (ht : 0 < t) (hnc : 0 < nc)
+    (hcols : numColumns = nc ∨ numColumns = 0) (pad : Option α) {bs : List (Batch α)}
+    (hwf : WF nc bs) {c : Nat} (hc : c < nc) :
+    colConcat (run t numColumns pad bs).out c = colConcat bs c ++ padding t pad (totalRows bs) := by
+  obtain ⟨fin, m, hrun, _, _, _, _, _, hcons⟩ := run_spec ht hnc hcols pad hwf
+  rw [hrun]; exact hcons c hc
+
+/-- Every emitted batch is rectangular: `nc` columns (of a supported container kind), all with the
+same number of rows — i.e. the output is again a well-formed stream. -/
+theorem C19_rect {t nc numColumns : Nat} (ht : 0 < t) (hnc : 0 < nc)
+    (hcols : numColumns = nc ∨ numColumns = 0) (pad : Option α) {bs : List (Batch α)}
+    (hwf : WF nc bs) : WF nc (run t numColumns pad bs).out := by
+  obtain ⟨fin, m, hrun, hfull, _, _, h0, h1, _⟩ := run_spec ht hnc hcols pad hwf
+  rw [hrun]
+  intro b hb
+  rcases List.mem_append.mp hb with hb | hb
+  · have := hfull b hb
+    rw [this.nrows hnc]; exact this
+  · rcases Nat.eq_zero_or_pos m with hm | hm
+    · rw [h0 hm] at hb; simp at hb
+    · obtain ⟨last, hl, hr⟩ := h1 hm
+      rw [hl] at hb; simp only [List.mem_singleton] at hb; subst hb
+      rw [hr.nrows hnc]; exact hr
+
+/-- Batch sizes: every emitted batch but the last has exactly `t` rows; the last has between 1 and
+`t` rows, exactly `t` when padding; and nothing is emitted iff the stream carries no row. -/
+theorem C19_sizes {t nc numColumns : Nat} (ht : 0 < t) (hnc : 0 < nc)
+    (hcols : numColumns = nc ∨ numColumns = 0) (pad : Option α) {bs : List (Batch α)}
+    (hwf : WF nc bs) :
+    (∀ j b, (run t numColumns pad bs).out[j]? = some b →
+        j + 1 < (run t numColumns pad bs).out.length → nrows b = t) ∧
+    (∀ b, (run t numColumns pad bs).out.getLast? = some b →
+        1 ≤ nrows b ∧ nrows b ≤ t ∧ (pad.isSome → nrows b = t)) ∧
+    ((run t numColumns pad bs).out = [] ↔ totalRows bs = 0) := by
+  obtain ⟨fin, m, hrun, hfull, htot, hmt, h0, h1, _⟩ := run_spec ht hnc hcols pad hwf
+  rw [hrun]; simp only
+  generalize online t numColumns pad bs = full at *
+  have hfulln : ∀ b ∈ full, nrows b = t := fun b hb => (hfull b hb).nrows hnc
+  rcases Nat.eq_zero_or_pos m with hm | hm
+  · rw [h0 hm, List.append_nil]
+    refine ⟨?_, ?_, ?_⟩
+    · intro j b hj _; exact hfulln b (List.mem_of_getElem? hj)
+    · intro b hb
+      have := hfulln b (List.mem_of_getLast? hb)
+      omega
+    · subst hm
+      constructor
+      · intro h; rw [htot, h]; simp
+      · intro h; rw [h] at htot
+        have : full.length * t = 0 := by omega
+        rcases Nat.mul_eq_zero.mp this with h | h
+        · exact List.length_eq_zero_iff.mp h
+        · omega
+  · obtain ⟨last, hl, hr⟩ := h1 hm
+    rw [hl]
+    have hlast := hr.nrows hnc
+    refine ⟨?_, ?_, ?_⟩
+    · intro j b hj hlt
+      simp only [List.length_append, List.length_singleton] at hlt
+      rw [List.getElem?_append_left (by omega)] at hj
+      exact hfulln b (List.mem_of_getElem? hj)
+    · intro b hb
+      rw [List.getLast?_concat] at hb
+      cases hb
+      rw [hlast]
+      cases pad <;> simp <;> omega
+    · constructor
+      · intro h; simp at h
+      · intro h; omega
+
+/-- Number of emitted batches: `⌈totalRows / t⌉`. -/
+theorem C19_count {t nc numColumns : Nat} (ht : 0 < t) (hnc : 0 < nc)
+    (hcols : numColumns = nc ∨ numColumns = 0) (pad : Option α) {bs : List (Batch α)}
+    (hwf : WF nc bs) :
+    (run t numColumns pad bs).out.length = (totalRows bs + t - 1) / t := by
+  obtain ⟨fin, m, hrun, hfull, htot, hmt, h0, h1, _⟩ := run_spec ht hnc hcols pad hwf
+  rw [hrun, htot]; simp only [List.length_append]
+  generalize (online t numColumns pad bs).length = F
+  rcases Nat.eq_zero_or_pos m with hm | hm
+  · rw [h0 hm]; subst hm
+    have : F * t + 0 + t - 1 = (t - 1) + t * F := by rw [Nat.mul_comm]; omega
+    rw [this, Nat.add_mul_div_left _ _ ht, Nat.div_eq_of_lt (by omega)]; simp
+  · obtain ⟨last, hl, _⟩ := h1 hm
+    rw [hl]
+    have : F * t + m + t - 1 = (m - 1) + t * (F + 1) := by
+      rw [Nat.mul_add, Nat.mul_comm]; omega
+    rw [this, Nat.add_mul_div_left _ _ ht, Nat.div_eq_of_lt (by omega)]; simp
+
+/-- Alignment: row `i` of emitted batch `j` is, in *every* column `c`, element `offset + i` of
+(input column `c` ++ padding), where `offset` = rows of the emitted batches before `j` — the same
+global row index for all columns, so row `i` of every column comes from the same input row. -/
+theorem C19_aligned {t nc numColumns : Nat} (ht : 0 < t) (hnc : 0 < nc)
+    (hcols : numColumns = nc ∨ numColumns = 0) (pad : Option α) {bs : List (Batch α)}
+    (hwf : WF nc bs) {c : Nat} (hc : c < nc) (j i : Nat) (b : Batch α)
+    (hj : (run t numColumns pad bs).out[j]? = some b) (hi : i < nrows b) :
+    (colRows b c)[i]? =
+      (colConcat bs c ++ padding t pad (totalRows bs))[totalRows ((run t numColumns pad bs).out.take j) + i]? := by
+  have hrect := C19_rect ht hnc hcols pad hwf
+  rw [← C19_conserve ht hnc hcols pad hwf hc]
+  generalize (run t numColumns pad bs).out = out at *
+  have hb : Rect nc (nrows b) b := hrect b (List.mem_of_getElem? hj)
+  have := getElem?_flatten_offset (out.map (colRows · c)) j i (colRows b c)
+    (by simp [hj]) (by rw [hb.colRows_len hc]; exact hi)
+  rw [← List.map_take, sum_length_colRows (hrect.take j) hc] at this
+  exact this.symm
+
+/-- The whole property as one equation on *rows* (a row = the tuple of the `i`-th elements of all
+columns): the rows of the emitted batches, read across the columns, are exactly the input rows in
+order, followed by the padding rows. -/
+theorem C19_rows [Inhabited α] {t nc numColumns : Nat} (ht : 0 < t) (hnc : 0 < nc)
+    (hcols : numColumns = nc ∨ numColumns = 0) (pad : Option α) {bs : List (Batch α)}
+    (hwf : WF nc bs) :
+    (run t numColumns pad bs).out.flatMap rowsOf =
+      bs.flatMap rowsOf ++ (padding t pad (totalRows bs)).map fun p => List.replicate nc p := by
+  have hrect := C19_rect ht hnc hcols pad hwf
+  have hcons := fun c hc => C19_conserve ht hnc hcols pad hwf (c := c) hc
+  generalize (run t numColumns pad bs).out = out at *
+  have hlen : totalRows out = totalRows bs + (padding t pad (totalRows bs)).length := by
+    rw [← length_colConcat hrect hnc, hcons 0 hnc, List.length_append, length_colConcat hwf hnc]
+  rw [flatMap_rowsOf hrect, flatMap_rowsOf hwf, hlen,
+    rowsOfCols_congr (Y := fun c => colConcat bs c ++ padding t pad (totalRows bs)) _ hcons,
+    rowsOfCols_append _ (fun c hc => length_colConcat hwf hc)]
+  congr 1
+  cases pad with
+  | none => simp [padding, rowsOfCols]
+  | some p => simp only [padding, List.length_replicate, List.map_replicate]; exact rowsOfCols_replicate nc _ p
+
+/-- Online behaviour: what has been yielded after consuming a prefix of the input is a prefix of
+the final output (nothing is retracted), and it consists of *all* complete batches available so
+far (only the remainder `totalRows pre % t` is withheld). -/
+theorem C19_online {t nc numColumns : Nat} (ht : 0 < t) (hnc : 0 < nc)
+    (hcols : numColumns = nc ∨ numColumns = 0) (pad : Option α) {pre post : List (Batch α)}
+    (hwf : WF nc (pre ++ post)) :
+    online t numColumns pad pre <+: (run t numColumns pad (pre ++ post)).out ∧
+    (online t numColumns pad pre).length = totalRows pre / t ∧
+    (∀ b ∈ online t numColumns pad pre, Rect nc t b) ∧
+    ∀ c, c < nc → colConcat (online t numColumns pad pre) c = (colConcat pre c).take (totalRows pre / t * t) := by
+  obtain ⟨hwf1, hwf2⟩ := WF.append.mp hwf
+  obtain ⟨fin, m, hrun, _⟩ := run_spec ht hnc hcols pad hwf
+  obtain ⟨fin1, m1, hrun1, hfull1, htot1, hmt1, _, _, _⟩ := run_spec ht hnc hcols pad hwf1
+  have hlen : (online t numColumns pad pre).length = totalRows pre / t := by
+    rw [htot1, Nat.mul_comm, Nat.mul_add_div ht, Nat.div_eq_of_lt hmt1]; simp
+  refine ⟨?_, hlen, hfull1, ?_⟩
+  · rw [hrun, online_eq ht hnc hcols pad hwf, online_eq ht hnc hcols pad hwf1,
+      feed_append pad pre post _ (feed_spec ht hnc pad pre _ (Inv.init ht nc) hwf1).1]
+    exact (List.prefix_append _ _).trans (List.prefix_append _ _)
+  · intro c hc
+    rw [← hlen]
+    have h4 := (feed_spec ht hnc pad pre _ (Inv.init ht nc) hwf1).2.2.2 c
+    rw [bufRows_init, List.nil_append, ← online_eq ht hnc hcols pad hwf1] at h4
+    rw [← h4, List.take_left']
+    rw [length_colConcat (wf_of_rect hnc hfull1) hc, totalRows_of_rect hnc hfull1]
+
+/-- `batch_size = 0` passes the stream through unchanged. -/
+theorem C19_identity (numColumns : Nat) (pad : Option α) (bs : List (Batch α)) :
+    run 0 numColumns pad bs = ⟨bs, none⟩ := by
+  simp [run]
+
+/-- Error branch: after a well-formed prefix, a batch with a wrong number of columns or with
+columns of unequal length makes the generator raise `ValueError`, having yielded exactly what it
+yields online for the prefix (`nc` = the column count in force, given or deduced). -/
+theorem C19_errors {t nc numColumns : Nat} (ht : 0 < t) (hnc : 0 < nc) (pad : Option α)
+    {pre post : List (Batch α)} {bad : Batch α} (hwf : WF nc pre)
+    (heff : effCols numColumns (pre ++ bad :: post) = nc)
+    (hbad : bad.length ≠ nc ∨ ¬ ∀ c ∈ bad, c.rows.length = nrows bad) :
+    run t numColumns pad (pre ++ bad :: post) = ⟨online t numColumns pad pre, some .value⟩ := by
+  rw [run_eq_eff ht pad (by simp), heff, runFrom_eq_feed]
+  obtain ⟨herr, ⟨m, _, hsh⟩, _, _⟩ := feed_spec ht hnc pad pre _ (Inv.init ht nc) hwf
+  have hstep : step t nc pad (feed t nc pad (St.init nc) pre).st bad = .error .value := by
+    rcases hbad with h | h
+    · exact step_bad_cols pad _ h
+    · by_cases hl : bad.length = nc
+      · exact step_bad_lens pad hsh hnc hl h
+      · exact step_bad_cols pad _ hl
+  have hon : online t numColumns pad pre = (feed t nc pad (St.init nc) pre).out := by
+    have ht0 : (t == 0) = false := by simp; omega
+    unfold online
+    simp only [ht0, Bool.false_eq_true, if_false]
+    by_cases hp : pre = []
+    · subst hp; simp [feed]
+    · rw [← effCols_append (bad :: post) hp, heff]
+  rw [feed_append pad pre (bad :: post) _ herr]
+  simp [feed, hstep, hon]
+
+/-- `TreeFn._iterate` with `fn_batch_size = fb` (any, 0 = off) and `batch_size = b > 0` around a
+row-wise function (`mapRows g kinds`: applies `g` to every row; `kinds` = container kinds of the
+output columns): never raises on a well-formed stream, and emits, column by column, `g` of the input
+rows in order, regrouped into batches of `b` rows (all full but possibly the last, which is
+non-empty) — independently of how the input was batched and of `fb`. -/
+theorem C19_treefn {β : Type} [Inhabited α] [Inhabited β] {fb b nin : Nat} (hb : 0 < b)
+    (hnin : 0 < nin) (g : List α → List β) {kinds : List Kind} (hk : ∀ k ∈ kinds, k ≠ .other)
+    (hnout : 0 < kinds.length) {bs : List (Batch α)} (hwf : WF nin bs) :
+    (treeFn fb b nin kinds.length (mapRows g kinds) bs).err = none ∧
+    (∀ c, c < kinds.length →
+      colConcat (treeFn fb b nin kinds.length (mapRows g kinds) bs).out c
+        = (bs.flatMap rowsOf).map fun row => (g row).getD c default) ∧
+    WF kinds.length (treeFn fb b nin kinds.length (mapRows g kinds) bs).out ∧
+    (∀ j b', (treeFn fb b nin kinds.length (mapRows g kinds) bs).out[j]? = some b' →
+      j + 1 < (treeFn fb b nin kinds.length (mapRows g kinds) bs).out.length → nrows b' = b) ∧
+    (∀ b', (treeFn fb b nin kinds.length (mapRows g kinds) bs).out.getLast? = some b' →
+      1 ≤ nrows b' ∧ nrows b' ≤ b) ∧
+    (treeFn fb b nin kinds.length (mapRows g kinds) bs).out.length = (totalRows bs + b - 1) / b := by
+  -- first stage
+  have h1 : (run fb nin none bs).err = none ∧ WF nin (run fb nin none bs).out ∧
+      ∀ c, c < nin → colConcat (run fb nin none bs).out c = colConcat bs c := by
+    rcases Nat.eq_zero_or_pos fb with h | h
+    · subst h; rw [C19_identity]; exact ⟨rfl, hwf, fun _ _ => rfl⟩
+    · refine ⟨C19_no_error h hnin (Or.inl rfl) none hwf, C19_rect h hnin (Or.inl rfl) none hwf, ?_⟩
+      intro c hc
+      rw [C19_conserve h hnin (Or.inl rfl) none hwf hc]; simp [padding]
+  obtain ⟨herr, hwf1, hcons1⟩ := h1
+  have hrows : (run fb nin none bs).out.flatMap rowsOf = bs.flatMap rowsOf :=
+    flatMap_rowsOf_congr hnin hwf1 hwf hcons1
+  have htot : totalRows (run fb nin none bs).out = totalRows bs := by
+    rw [← length_colConcat hwf1 hnin, ← length_colConcat hwf hnin, hcons1 0 hnin]
+  simp only [treeFn, herr]
+  generalize (run fb nin none bs).out = xs at *
+  have hwf2 := wf_mapRows g hk hnout xs
+  have htot2 := totalRows_mapRows g hk hnout xs
+  obtain ⟨s1, s2, _⟩ := C19_sizes hb hnout (Or.inl rfl) none hwf2
+  refine ⟨C19_no_error hb hnout (Or.inl rfl) none hwf2, ?_, C19_rect hb hnout (Or.inl rfl) none hwf2,
+    s1, fun b' h => ⟨(s2 b' h).1, (s2 b' h).2.1⟩, ?_⟩
+  · intro c hc
+    rw [C19_conserve hb hnout (Or.inl rfl) none hwf2 hc, colConcat_mapRows g xs hc, hrows]
+    simp [padding]
+  · rw [C19_count hb hnout (Or.inl rfl) none hwf2, htot2, htot]
+
+/-! ## Non-vacuity and sanity tests (concrete instances, by `decide`; `+kernel` because `sliced`
+is defined by well-founded recursion) -/
+
+-- the hypotheses of the theorems are satisfiable by a non-trivial stream (2 columns, sizes 5 and 1)
+example : WF 2 sampleStream := by decide
+example : WF 2 (sampleStream ++ sampleStream) := by decide
+-- ... for both ways of giving the column count
+example : (2 = 2 ∨ 2 = 0) ∧ (0 = 2 ∨ 0 = 0) := by decide
+-- hypotheses of `C19_errors`: a ragged batch after a well-formed prefix, column count deduced
+example : effCols 0 (sampleStream ++ sampleRagged :: []) = 2 ∧
+    (sampleRagged.length ≠ 2 ∨ ¬ ∀ c ∈ sampleRagged, c.rows.length = nrows sampleRagged) := by decide
+-- hypotheses of `C19_treefn`
+example : (∀ k ∈ [Kind.list], k ≠ Kind.other) ∧ 0 < [Kind.list].length := by decide
+-- `WF` rejects what it should
+example : ¬ WF 2 [sampleRagged] := by decide
+example : ¬ WF 1 sampleStream := by decide
+example : ¬ WF 1 [[(⟨.other, [1]⟩ : Col Nat)]] := by decide
+
+-- the model on the sample: target 2 (multi-slice flush, exact fit after the carry)
+example : run 2 0 none sampleStream =
+    ⟨[[⟨.list, [0, 1]⟩, ⟨.array, [10, 11]⟩], [⟨.list, [2, 3]⟩, ⟨.array, [12, 13]⟩],
+      [⟨.list, [4, 5]⟩, ⟨.array, [14, 15]⟩]], none⟩ := by decide +kernel
+-- target 4 with padding: only the final batch is extended
+example : run 4 2 (some 99) sampleStream =
+    ⟨[[⟨.list, [0, 1, 2, 3]⟩, ⟨.array, [10, 11, 12, 13]⟩],
+      [⟨.list, [4, 5, 99, 99]⟩, ⟨.array, [14, 15, 99, 99]⟩]], none⟩ := by decide +kernel
+-- online: after the first input batch two full batches are out, row 4 is withheld
+example : online 2 0 none (sampleStream.take 1) =
+    [[⟨.list, [0, 1]⟩, ⟨.array, [10, 11]⟩], [⟨.list, [2, 3]⟩, ⟨.array, [12, 13]⟩]] := by
+  decide +kernel
+-- error branch
+example : run 2 0 none (sampleStream ++ [sampleRagged]) =
+    ⟨online 2 0 none sampleStream, some .value⟩ := by decide +kernel
+-- TreeFn: fn_batch_size 4, batch_size 3, row-wise sum of the two columns
+example : treeFn 4 3 2 1 (mapRows sampleSum [.list]) sampleStream =
+    ⟨[[⟨.list, [10, 12, 14]⟩], [⟨.list, [16, 18, 20]⟩]], none⟩ := by decide +kernel
+
 end MlModel.C19
